@@ -6,6 +6,7 @@ import random
 from .common import case, guarded, ordinal_instance, strict, rand_perm
 
 ID = "C13"
+COVER_FILES = ['properties/subdomains/ordinal/singlepeaked/single_peaked_tree.py']
 RULE = ("exhaustive: m = 2; every non-empty set of distinct strict orders over 3 alternatives (both storage orders); "
         "every set of <= 3 (quick) / <= 4 (thorough) distinct strict orders over 4 alternatives, stored in increasing "
         "and in decreasing lexicographic order (thorough: also all sets of 5, one storage order); all sets of <= 2 orders over three non-contiguous id sets of size 4; "
